@@ -5,6 +5,9 @@ package mimetype
 import (
 	"bytes"
 	"fmt"
+	"os"
+	"sync"
+	"testing"
 
 	"pgregory.net/rapid"
 )
@@ -45,6 +48,146 @@ func vfTreeRestore() {
 		n.detector = vfSnap.detector[i]
 	}
 	mu.Unlock()
+}
+
+// vfTreeWellFormed: the registered formats form a tree - every node is listed under exactly one
+// parent, its parent pointer is that parent, and the chain of parents ends at the root.
+func vfTreeWellFormed() error {
+	seen := map[*MIME]*MIME{}
+	var walk func(p *MIME) error
+	walk = func(p *MIME) error {
+		for _, c := range p.children {
+			if prev, dup := seen[c]; dup {
+				return fmt.Errorf("format %s%s is listed under two parents: %s and %s", c.mime, c.extension, prev.mime, p.mime)
+			}
+			seen[c] = p
+			if c.parent != p {
+				pn := "<nil>"
+				if c.parent != nil {
+					pn = c.parent.mime
+				}
+				return fmt.Errorf("format %s%s is listed under %s but its parent pointer says %s", c.mime, c.extension, p.mime, pn)
+			}
+			if err := walk(c); err != nil {
+				return err
+			}
+		}
+		return nil
+	}
+	if root.parent != nil {
+		return fmt.Errorf("the root has a parent")
+	}
+	return walk(root)
+}
+
+// vfConcurrentExtend registers n extensions on the same parent from n goroutines released together
+// and reports the ones that are not in force afterwards (by Lookup of name and alias, and by
+// detection of an input only that extension accepts).
+func vfConcurrentExtend(parent string, n int) error {
+	vfTreeSnapshot()
+	vfTreeRestore()
+	defer vfTreeRestore()
+	var wg sync.WaitGroup
+	start := make(chan struct{})
+	for k := 0; k < n; k++ {
+		wg.Add(1)
+		go func(k int) {
+			defer wg.Done()
+			magic := []byte(fmt.Sprintf("VFC%04d:", k))
+			det := func(raw []byte, _ uint32) bool { return bytes.HasPrefix(raw, magic) }
+			<-start
+			if parent == "" {
+				vfExtendRoot(det, fmt.Sprintf("application/x-verif-c%d", k), fmt.Sprintf(".c%d", k), fmt.Sprintf("application/x-verif-c%d-alias", k))
+			} else if p := Lookup(parent); p != nil {
+				p.Extend(det, fmt.Sprintf("application/x-verif-c%d", k), fmt.Sprintf(".c%d", k), fmt.Sprintf("application/x-verif-c%d-alias", k))
+			}
+		}(k)
+	}
+	close(start)
+	wg.Wait()
+	for k := 0; k < n; k++ {
+		name := fmt.Sprintf("application/x-verif-c%d", k)
+		for _, nm := range []string{name, name + "-alias"} {
+			if l := Lookup(nm); l == nil || l.String() != name {
+				return fmt.Errorf("%d goroutines each registered one format under %q; all Extend calls returned, but Lookup(%q) = %v", n, parent, nm, l)
+			}
+		}
+		if parent != "" && parent != "text/plain" {
+			continue // the magic input only reaches the root and text/plain; elsewhere Lookup is the check
+		}
+		in := []byte(fmt.Sprintf("VFC%04d: plain words", k))
+		if m := Detect(in); vfBare(m.String()) != name {
+			return fmt.Errorf("%d goroutines each registered one format under %q; the input for format %d is classified as %s", n, parent, k, vfChainStr(m))
+		}
+	}
+	return nil
+}
+
+// vfStaticCase / vfStaticSub: parameterless structural checks packaged as a replayable sub-check.
+type vfStaticCase struct {
+	Check  string `json:"check"`
+	Parent string `json:"parent,omitempty"`
+	N      int    `json:"n,omitempty"`
+}
+
+func vfStaticCheck(c vfStaticCase) vfResult {
+	var r vfResult
+	r.Nontrivial = true
+	r.Hash = vfHash([]byte(fmt.Sprint(c)))
+	switch c.Check {
+	case "tree-well-formed":
+		r.Err = vfTreeWellFormed()
+	case "concurrent-extend":
+		r.Err = vfConcurrentExtend(c.Parent, c.N)
+		r.Labels = append(r.Labels, "concurrent-extend")
+	}
+	return r
+}
+
+// vfRunStatic runs the tree check once and a number of concurrent-registration cases.
+func vfRunStatic(t *testing.T, prop string, concCases int) {
+	vfRun(t, vfSub[vfStaticCase]{Prop: prop, Name: "static", Check: vfStaticCheck})
+	if vfReplayMode() || t.Failed() {
+		return
+	}
+	cases := []vfStaticCase{{Check: "tree-well-formed"}}
+	parents := []string{"", "text/plain", "application/zip", "application/json"}
+	for i := 0; i < concCases; i++ {
+		if i%vfNShards() != vfShard() {
+			continue
+		}
+		cases = append(cases, vfStaticCase{Check: "concurrent-extend", Parent: parents[i%len(parents)], N: []int{2, 3, 8, 16, 48, 128}[i%6]})
+	}
+	for _, c := range cases {
+		r := vfStaticCheck(c)
+		vfStats.record(r, func() any { return map[string]any{"sub": "static", "case": c} })
+		if r.Err != nil {
+			vfEnumFail(t, prop, "static", c, r.Err)
+			return
+		}
+	}
+}
+
+// vfProcfs: files whose size as reported by stat differs from what reading them yields (procfs).
+// DetectFile must classify them by their bytes like every other entry point.
+func vfProcfs(check func(path string, content []byte, viaFile *MIME, err error) error) (int, error) {
+	n := 0
+	for _, p := range []string{"/proc/self/cmdline", "/proc/version", "/proc/self/environ", "/proc/filesystems"} {
+		b, err := os.ReadFile(p)
+		if err != nil || len(b) == 0 {
+			continue
+		}
+		m, derr := DetectFile(p)
+		b2, _ := os.ReadFile(p)
+		if !bytes.Equal(b, b2) {
+			continue // content not stable
+		}
+		n++
+		if e := check(p, b, m, derr); e != nil {
+			return n, e
+		}
+	}
+	return n, nil
 }
 
 // ---------------------------------------------------------------------------------
@@ -109,9 +252,22 @@ type vfExt struct {
 	Aliases []string `json:"aliases,omitempty"`
 }
 
+// vfMethodOnly: in odd shards no check ever calls the package-level Extend; the root is extended
+// through Lookup("application/octet-stream").Extend instead (the two must be interchangeable, and a
+// process that never used the package-level function must be as safe as one that did).
+func vfMethodOnly() bool { return vfShard()%2 == 1 }
+
+func vfExtendRoot(det func([]byte, uint32) bool, mime, ext string, aliases ...string) {
+	if vfMethodOnly() {
+		Lookup("application/octet-stream").Extend(det, mime, ext, aliases...)
+		return
+	}
+	Extend(det, mime, ext, aliases...)
+}
+
 func (e vfExt) apply() error {
 	if e.Parent == "" {
-		Extend(e.Pred.fn(), e.Mime, e.Ext, e.Aliases...)
+		vfExtendRoot(e.Pred.fn(), e.Mime, e.Ext, e.Aliases...)
 		return nil
 	}
 	p := Lookup(e.Parent)
